@@ -5,6 +5,8 @@ libraries' data model (listed in the evidence); class hierarchies themselves are
 """
 import griffe.dataclasses  # noqa: F401
 import griffe  # noqa: F401
+import io  # noqa: F401
+import pathlib  # noqa: F401
 import mypy.nodes as mp_nodes  # noqa: F401
 import mypy.types as mp_types  # noqa: F401
 from mypy.nodes import ArgKind  # noqa: F401
@@ -24,6 +26,7 @@ SCHEMA = {
 }
 
 SCHEMA.update({
+    "pathlib.PurePath": {"stem": "str", "name": "str", "parts": "tuple[str, ...]"},
     "_griffe.expressions.Expr": {"canonical_path": "str", "canonical_name": "str"},
     "_griffe.expressions.ExprSubscript": {"slice": "griffe.Expr | str", "left": "griffe.Expr | str"},
     "_griffe.expressions.ExprTuple": {"elements": "list[griffe.Expr | str]"},
@@ -34,6 +37,8 @@ SCHEMA.update({
 
 # assumed result shapes of external functions (otherwise their results are unconstrained values)
 EXTERNAL_RETURNS = {
+    "pathlib.Path.open": "io.TextIOWrapper",
+    "pathlib.Path.exists": "bool",
     "griffe.docstrings.utils.parse_annotation": "griffe.Expr | str",
     "_griffe.docstrings.utils.parse_docstring_annotation": "griffe.Expr | str",
 }
